@@ -61,4 +61,6 @@ type Shadow interface {
 	// (finding D12b, repaired: these two names used to be shadowed by locals of the testify template)
 	Check(ok bool) bool
 	Named(returnFunc string, ret int) error
+	// (finding D28, repaired: these two names used to collide with the receiver and a local of the matryer template)
+	Register(mock int, callInfo string) int
 }
